@@ -50,8 +50,19 @@ def g3(x) -> tag.C & tag.A & tag.C:
 def g4(x) -> int:
     y = x + 5
     return y
+def _mk():
+    k6, k7 = 6, 7
+    def g6(x) -> tag.B:
+        y = x + k6
+        return y
+    def g7(x, *, kw=1) -> tag.D & tag.A:
+        y = x + k7 + kw - 1
+        return y
+    return g6, g7
+g6, g7 = _mk()
 '''
-RET_TAGS = {"g0": [], "g1": ["A"], "g2": ["A", "B"], "g3": ["A", "C"], "g4": []}
+RET_Y = {"g0": 11, "g1": 12, "g2": 13, "g3": 14, "g4": 15, "g6": 16, "g7": 17}
+RET_TAGS = {"g0": [], "g1": ["A"], "g2": ["A", "B"], "g3": ["A", "C"], "g4": [], "g6": ["B"], "g7": ["A", "D"]}
 
 
 def part_a(res):
@@ -221,7 +232,7 @@ def check_return_tags(scratch, res, tag_):
                         ns[other](10)
             except Exception as e:
                 err = e
-            want = [{"y": 10 + int(g[1]) + 1}] if T in tags else []
+            want = [{"y": RET_Y[g]}] if T in tags else []
             if T in tags:
                 if err is not None or got != want:
                     res.violation({"ret": g, "tag": T}, f"{g}:@{T} > y: expected {want}, got {got} err={err!r}")
@@ -230,6 +241,34 @@ def check_return_tags(scratch, res, tag_):
                 if got:
                     res.violation({"ret": g, "tag": T}, f"{g}:@{T} > y fired although {g}'s return annotation lacks the tag: {got}")
             res.count("return_tag_checks")
+    # the same through tooled() copies (new function objects; closures are rebuilt) and raw overlays
+    from ptera import tooled
+    from ptera.interpret import Immediate
+    from ptera.overlay import BaseOverlay
+    from ptera.selector import select
+
+    tns = dict(ns)
+    for g in RET_TAGS:
+        tns[g] = tooled(ns[g])
+    for g, tags in RET_TAGS.items():
+        for T in ALPHA:
+            res.evaluations += 1
+            res.deciding += 1
+            got = []
+            try:
+                so = select(f"{g}:@{T} > y", env=tns)
+                with BaseOverlay(Immediate(so, trigger=lambda d: got.append({k: c.value for k, c in d.items()}))):
+                    for other in RET_TAGS:
+                        r = tns[other](10)
+                        if r != ns[other](10):
+                            res.violation({"ret": other, "tooled": True}, f"tooled {other}(10) returned {r}")
+            except Exception as e:
+                res.violation({"ret": g, "tag": T, "tooled": True}, f"tooled {g}:@{T} > y raised {type(e).__name__}: {e}")
+                continue
+            want = [{"y": RET_Y[g]}] if T in tags else []
+            if got != want:
+                res.violation({"ret": g, "tag": T, "tooled": True}, f"tooled {g}:@{T} > y: expected {want}, got {got}")
+            res.count("return_tag_checks_tooled")
 
 
 def run_shard(spec):
